@@ -22,8 +22,8 @@ PARTIAL = [
     "evaluation function of these (eval_congr); the JAX evaluation itself is exercised by the bitwise oracle only",
     "compress_select excludes by design (test-suite pins it) the pairs Path + explicit keyword + name without the matching "
     "extension read back without keyword (compress_select_excluded_pair)",
-    "copy_fresh is proved for predictors none of whose attribute values (own or of a kernel node) holds a Python list; with a "
-    "list-valued active_dims the copy shares that list with its source (copy_fresh_counterexample; recorded finding)",
+    "copy_fresh is a statement of the allocation-id model (every mutable container of the copy is freshly allocated); the "
+    "object graph of the real copy is exercised by mutating every container reachable from it",
     "version strings: dotted numerals only (packaging pre/dev/local versions are Unmodelled)",
 ]
 ASSUMPTIONS = ["predictor attributes and kernel parameters are values of the C19 grammar",
@@ -633,7 +633,7 @@ def run_case(ctx, res, p):
 
 def gen_tree(rng, width, depth, list_ad=True):
     """Positive-definite kernels (stationary leaves, sums / products, positive scalars) so that the fitted state is
-    finite; every active_dims form (lists only on request: copy() shares them, recorded finding)."""
+    finite; every active_dims form."""
     forms = ["AN", "AI", "AIneg", "AM", "AS"] + (["AL"] if list_ad else [])
     from ..common import STATIONARY, ad_indices
     def go(w, dep):
@@ -650,7 +650,7 @@ def gen_tree(rng, width, depth, list_ad=True):
     return go(width, depth)
 
 
-def gen_pred(rng, cls, unc, state="plain", depth=None, derivs=False, list_ad=False, **kw):
+def gen_pred(rng, cls, unc, state="plain", depth=None, derivs=False, list_ad=True, **kw):
     fam, fl = class_parts(cls)
     d = 2                                       # one shape family: XLA compiles per shape
     width = d + (1 if fl == "Time" else 0)
@@ -667,7 +667,7 @@ def run(ctx, res):
     budget = ctx["budget"] or (55 if quick else 480)
     t0 = time.time()
     mellon()
-    # --- fixed witness of the recorded finding: a list-valued active_dims is shared by copy()
+    # --- regression case of the repaired defect F3 (a list-valued active_dims was shared by copy()): must PASS
     run_case(ctx, res, {"op": "pred", "cls": "FullConditional", "seed": 5, "n": 5, "d": 2, "m": 3, "unc": False,
                         "state": "plain", "tree": ["M52", 1.3, ["AL", [0, 1]]], "derivs": False})
     # --- allocation model on values
@@ -675,8 +675,9 @@ def run(ctx, res):
     for sp, fresh in [(["A", "np", "f", [2], [fbits(1.0), fbits(2.0)]], True), (["ST", [["S", "a"], ["I", 1]]], True),
                       (["D", [["a", ["A", "np", "i", [1], [3]]], ["b", ["ST", [["I", 1]]]]]], True),
                       (["D", [["a", ["D", [["b", ["A", "jnp", "f", [1], [fbits(1.0)]]]]]]]], True),
-                      (L([["I", 0], ["I", 1]]), False), (["D", [["a", L([["I", 0]])]]], False),
-                      (["I", 3], True), (["SL", ["N"], ["I", 1], ["N"]], True), (L([]), False)]:
+                      (L([["I", 0], ["I", 1]]), True), (["D", [["a", L([["I", 0]])]]], True),
+                      (L([L([["I", 1]]), ["D", [["b", L([])]]]]), True),
+                      (["I", 3], True), (["SL", ["N"], ["I", 1], ["N"]], True), (L([]), True)]:
         run_case(ctx, res, {"op": "copyshare", "spec": sp, "expect_fresh": fresh})
     # --- versions / class names
     for v, nm in [("1.3.1", "FullConditionalMean"), ("1.4.0", "LandmarksConditionalMeanCholeskyTime"), ("1.4", "X"),
@@ -730,12 +731,11 @@ CLAIM = {
             "kernel preserved, re-serialisation equal to the normal form of the first serialisation; the complete compression "
             "decision table of to_json/from_json over (name, str|Path, keyword) with read(write) = p for every consistent pair, "
             "unknown keyword -> ValueError and nothing written, and the excluded pairs enumerated; copy allocates fresh ids for "
-            "every mutable container unless a Python list is reachable (counter-example proved); dicts written before 1.4.0 "
+            "every mutable container; dicts written before 1.4.0 "
             "load with the documented defaults. Tied to /repo by exact comparison of real predictors of all 9 classes with the "
             "model driver through every route and by a bitwise oracle on mean/covariance/mean_covariance/uncertainty/gradient/"
             "hessian outputs, real files in a temp dir, mutation of every container of the copy, synthesised legacy dicts.",
     "note": "file system, gzip/bz2 and the JSON text layer are contracts; JAX evaluation is exercised by the oracle only; "
-            "copy() shares list-valued attributes (e.g. active_dims=[0,1]) with its source (recorded finding). "
             "Correspondence is sampled differential testing.",
     "technique": "Lean 4 proof (induction over value/kernel syntax, decision-table case analysis over character lists, "
                  "allocation-id model) + exact differential correspondence + bitwise oracle",
